@@ -133,8 +133,8 @@ pub fn check_interpreter_accepts(w: &mut World, actor: &str, tx: &Transaction, i
             if key_path {
                 w.stats.probe("v3b_key_path_skipped");
             } else if let Some(Ok(pol)) = guard(w, "lift", actor, |_| env.inputs[i].desc.lift()) {
-                let by_pk = env.uni.key_by_pubkey();
-                let keys: BTreeSet<usize> = sigs.iter().filter_map(|(pk, _)| by_pk.get(pk).copied()).collect();
+                let by_pk = env.uni.keys_by_pubkey();
+                let keys: BTreeSet<usize> = sigs.iter().flat_map(|(pk, _)| by_pk.get(pk).cloned().unwrap_or_default()).collect();
                 let pres: BTreeSet<usize> = env.uni.hashes.iter().filter(|h| pre.contains(&h.preimage.to_vec())).map(|h| h.id).collect();
                 let pw = PolicyWorld { env: &env, keys, preimages: &pres, lock_time: t.lock_time.to_consensus_u32(), sequence: t.input[i].sequence.0, version: t.version.0 };
                 if !eval_policy(&pol, &pw) {
